@@ -601,7 +601,7 @@ int main(int argc, char** argv)
         /* context reuse: sessions that end normally, are abandoned, or fail; then a fresh frame must be valid and identical to a fresh context's */
         int ncases = thorough ? SH(3000) : 200;
         for (i = 0; i < ncases; i++) {
-            size_t n = rndp(60) ? rndn(3000) : rndn(150000); LZ4F_preferences_t prefs; vec_t a, b; LZ4F_cctx* fresh; rec_t r; int sab = (int)rndn(5);
+            size_t n = rndp(60) ? rndn(3000) : rndn(150000); LZ4F_preferences_t prefs; vec_t a, b; LZ4F_cctx* fresh; rec_t r; int sab = (int)rndn(5); int dk = DK_NONE; size_t dsz = 0;
             memset(&a, 0, sizeof a); memset(&b, 0, sizeof b);
             /* sabotage the shared context first */
             {   LZ4F_preferences_t p0 = rand_prefs(0); u8 tmp[64]; size_t k = rndn(70000); vec_t junk; memset(&junk, 0, sizeof junk); gen_data(data, k, (int)rndn(D_KINDS));
@@ -615,11 +615,15 @@ int main(int argc, char** argv)
                 free(junk.p); n_calls += 2;
             }
             gen_data(data, n, (int)rndn(D_KINDS)); prefs = rand_prefs(n);
-            rec_begin(&r, OP_FRAME); rec_int(&r, K_STREAM); rec_prefs(&r, &prefs); rec_int(&r, 0); rec_int(&r, DK_NONE); rec_bytes(&r, data, n); rec_bytes(&r, NULL, 0); cur_set(&r);
+            /* a third of the frames are begun with a raw dictionary (LZ4F_compressBegin_usingDict) and quote it: the dictionary must be loaded into whatever
+             * kind of block context the history left */
+            if (rndp(35) && n >= 64) { size_t q, nq = 1 + rndn(12); dk = DK_DICT; dsz = rndp(50) ? 64 + rndn(2000) : 64 + rndn(69000);
+                for (q = 0; q < nq; q++) { size_t l = 8 + rndn(200), from = rndn((u32)dsz), to; if (l > n) l = n; if (from + l > dsz) l = dsz - from; to = rndn((u32)(n - l + 1)); memcpy(data + to, g_dictbuf + (70000 - dsz) + from, l); } n_dict_derived++; }
+            rec_begin(&r, OP_FRAME); rec_int(&r, K_STREAM); rec_prefs(&r, &prefs); rec_int(&r, (long long)dsz); rec_int(&r, dk); rec_bytes(&r, data, n); rec_bytes(&r, NULL, 0); cur_set(&r);
             {   u64 s = g_rs; int rc1, rc2;
-                rc1 = make_frame_stream(cctx, &prefs, data, n, DK_NONE, 0, NULL, &a, 0);
+                rc1 = make_frame_stream(cctx, &prefs, data, n, dk, dsz, NULL, &a, 0);
                 LZ4F_createCompressionContext(&fresh, LZ4F_VERSION); g_rs = s;
-                rc2 = make_frame_stream(fresh, &prefs, data, n, DK_NONE, 0, NULL, &b, 0);
+                rc2 = make_frame_stream(fresh, &prefs, data, n, dk, dsz, NULL, &b, 0);
                 LZ4F_freeCompressionContext(fresh);
                 r.n -= 1; rec_bytes(&r, a.p, a.n);
                 if (rc1 || rc2) c_fail(&r, rc1 ? "begin_after_history_failed" : "fresh_context_failed");
@@ -630,21 +634,22 @@ int main(int argc, char** argv)
             n_frames++;
             /* decoder side: history on the shared dctx, then this frame must decode as on a fresh context, one frame per completion */
             if (a.n) {
+                const u8* dd = dk == DK_DICT ? g_dictbuf + (70000 - dsz) : NULL; size_t dds = dk == DK_DICT ? dsz : 0;   /* the decoder is given the dictionary the frame was begun with */
                 int hist = (int)rndn(5); decres_t d; size_t fsz = a.n; u8* two; vec_t hf; LZ4F_preferences_t hp = rand_prefs(0); size_t hn = 200 + rndn(100000);
                 /* the frame used for the history has its own preferences (content size present in half of the cases) */
                 memset(&hf, 0, sizeof hf); { u8* hd = xalloc(hn); gen_data(hd, hn, (int)rndn(D_KINDS)); hp.frameInfo.contentSize = rndp(60) ? hn : 0; { LZ4F_cctx* hc; LZ4F_createCompressionContext(&hc, LZ4F_VERSION); if (make_frame_stream(hc, &hp, hd, hn, DK_NONE, 0, NULL, &hf, 0)) hf.n = 0; LZ4F_freeCompressionContext(hc); } free(hd); }
                 if (hf.n == 0) { vec_put(&hf, a.p, a.n); }
                 switch (hist) {
                 case 0: break;
-                case 1: { decres_t t = decode_frame(dctx, a.p, a.n, 0, 0, NULL, 0, rnd()); free(t.out.p); break; }                       /* a completed frame */
-                case 2: { decres_t t = decode_frame(dctx, hf.p, rndp(50) ? 7 + rndn(30) : rndn((u32)hf.n), rndp(50) ? 0 : 2, 0, NULL, 0, rnd()); free(t.out.p); LZ4F_resetDecompressionContext(dctx); break; }   /* truncated (often right after the header), then reset */
-                case 3: { u8* m = xalloc(hf.n); decres_t t; memcpy(m, hf.p, hf.n); m[hf.n > 40 ? 20 + rndn((u32)hf.n - 20) : rndn((u32)hf.n)] ^= 0x40; t = decode_frame(dctx, m, hf.n, rndp(50) ? 0 : 2, 0, NULL, 0, rnd()); free(t.out.p); free(m); LZ4F_resetDecompressionContext(dctx); break; }  /* corrupted, then reset */
-                default: { u8 s[48]; u32 magic = 0x184D2A50u + rndn(16), sz = rndn(40); decres_t t; memcpy(s, &magic, 4); memcpy(s + 4, &sz, 4); memset(s + 8, 7, sz); t = decode_frame(dctx, s, 8 + sz, (int)rndn(3), 0, NULL, 0, rnd()); free(t.out.p); break; }  /* skippable */
+                case 1: { decres_t t = decode_frame(dctx, a.p, a.n, 0, 0, dd, dds, rnd()); free(t.out.p); break; }                       /* a completed frame */
+                case 2: { decres_t t = decode_frame(dctx, hf.p, rndp(50) ? 7 + rndn(30) : rndn((u32)hf.n), rndp(50) ? 0 : 2, 0, dd, dds, rnd()); free(t.out.p); LZ4F_resetDecompressionContext(dctx); break; }   /* truncated (often right after the header), then reset */
+                case 3: { u8* m = xalloc(hf.n); decres_t t; memcpy(m, hf.p, hf.n); m[hf.n > 40 ? 20 + rndn((u32)hf.n - 20) : rndn((u32)hf.n)] ^= 0x40; t = decode_frame(dctx, m, hf.n, rndp(50) ? 0 : 2, 0, dd, dds, rnd()); free(t.out.p); free(m); LZ4F_resetDecompressionContext(dctx); break; }  /* corrupted, then reset */
+                default: { u8 s[48]; u32 magic = 0x184D2A50u + rndn(16), sz = rndn(40); decres_t t; memcpy(s, &magic, 4); memcpy(s + 4, &sz, 4); memset(s + 8, 7, sz); t = decode_frame(dctx, s, 8 + sz, (int)rndn(3), 0, dd, dds, rnd()); free(t.out.p); break; }  /* skippable */
                 }
                 if (rndp(50)) {   /* header consumed by LZ4F_getFrameInfo, rest by LZ4F_decompress: must still decode like a fresh context */
                     LZ4F_frameInfo_t fi; size_t hsz = a.n; size_t hr = LZ4F_getFrameInfo(dctx, &fi, a.p, &hsz);
                     if (LZ4F_isError(hr)) c_fail(&r, "getFrameInfo_failed");
-                    else { decres_t d2 = decode_frame(dctx, a.p + hsz, a.n - hsz, rndp(50) ? 0 : 2, 0, NULL, 0, rnd()); n_decodes++;
+                    else { decres_t d2 = decode_frame(dctx, a.p + hsz, a.n - hsz, rndp(50) ? 0 : 2, 0, dd, dds, rnd()); n_decodes++;
                         if (d2.verdict != 0) { c_fail(&r, "reused_dctx_failed_on_valid_frame"); LZ4F_resetDecompressionContext(dctx); }
                         else if (d2.out.n != n || (n && memcmp(d2.out.p, data, n) != 0)) c_fail(&r, "reused_dctx_wrong_content");
                         free(d2.out.p); }
@@ -652,7 +657,7 @@ int main(int argc, char** argv)
                 free(hf.p);
                 /* two frames in one buffer: the first completion must stop exactly at the end of the first frame */
                 two = xalloc(2 * fsz); memcpy(two, a.p, fsz); memcpy(two + fsz, a.p, fsz);
-                d = decode_frame(dctx, two, 2 * fsz, rndp(50) ? 0 : 5, 0, NULL, 0, rnd()); n_decodes++;
+                d = decode_frame(dctx, two, 2 * fsz, rndp(50) ? 0 : 5, 0, dd, dds, rnd()); n_decodes++;
                 if (d.verdict != 0) c_fail(&r, "reused_dctx_failed_on_valid_frame");
                 else if (d.consumed != fsz) c_fail(&r, "completion_did_not_stop_at_frame_end");
                 else if (d.out.n != n || (n && memcmp(d.out.p, data, n) != 0)) c_fail(&r, "reused_dctx_wrong_content");
@@ -679,7 +684,7 @@ int main(int argc, char** argv)
                             size_t in = how == 0 ? a.n - fed : (how == 1 ? 1 + rndn(5) : hs), o = how == 0 ? 0 : sizeof small, res; u8* src;
                             if (how != 0 && in > hs - fed) in = hs - fed;
                             src = xalloc(in); memcpy(src, a.p + fed, in);
-                            res = LZ4F_decompress(dctx, small, &o, src, &in, NULL); n_calls++; free(src);
+                            res = dds ? LZ4F_decompress_usingDict(dctx, small, &o, src, &in, dd, dds, NULL) : LZ4F_decompress(dctx, small, &o, src, &in, NULL); n_calls++; free(src);   /* the dictionary is registered by the FIRST call of a frame */
                             if (LZ4F_isError(res) || o != 0) { bad = 1; break; }
                             if (in == 0) break;
                             fed += in;
@@ -693,7 +698,7 @@ int main(int argc, char** argv)
                                  || fi.contentSize != prefs.frameInfo.contentSize || fi.dictID != prefs.frameInfo.dictID || fi.frameType != LZ4F_frame
                                  || fi.blockSizeID != (prefs.frameInfo.blockSizeID ? prefs.frameInfo.blockSizeID : LZ4F_max64KB)) c_fail(&r, "getFrameInfo_wrong_parameters_after_start");
                         else {   /* and the rest of the frame still decodes to the content */
-                            decres_t d5 = decode_frame(dctx, a.p + fed, a.n - fed, rndp(50) ? 0 : 2, 0, NULL, 0, rnd()); n_decodes++;
+                            decres_t d5 = decode_frame(dctx, a.p + fed, a.n - fed, rndp(50) ? 0 : 2, 0, dd, dds, rnd()); n_decodes++;
                             if (d5.verdict != 0 || d5.out.n != n || (n && memcmp(d5.out.p, data, n) != 0)) c_fail(&r, "reused_dctx_wrong_content_after_getFrameInfo");
                             free(d5.out.p);
                         }
@@ -706,11 +711,11 @@ int main(int argc, char** argv)
                     memcpy(buf, &magic, 4); memcpy(buf + 4, &ssz, 4); for (k2 = 0; k2 < ssz; k2++) buf[8 + k2] = (u8)rnd(); memcpy(buf + 8 + ssz, a.p, fsz); total = 8 + ssz + fsz;
                     if (rndp(75)) { LZ4F_frameInfo_t fi; size_t c = rndp(50) ? total : 8 + rndn(11); size_t hr = LZ4F_getFrameInfo(dctx, &fi, buf, &c);   /* needs the 8 bytes of magic number + size, consumes the magic number */ n_calls++;
                         if (LZ4F_isError(hr)) c_fail(&r, "getFrameInfo_failed"); else { pos = c; if (fi.frameType != LZ4F_skippableFrame) c_fail(&r, "getFrameInfo_wrong_parameters"); } }
-                    d3 = decode_frame(dctx, buf + pos, total - pos, pol, 0, NULL, 0, rnd()); n_decodes++;
+                    d3 = decode_frame(dctx, buf + pos, total - pos, pol, 0, dd, dds, rnd()); n_decodes++;
                     if (d3.verdict != 0) { c_fail(&r, "reused_dctx_failed_on_valid_frame"); LZ4F_resetDecompressionContext(dctx); }
                     else if (pos + d3.consumed != 8 + ssz) c_fail(&r, "completion_did_not_stop_at_frame_end");
                     else if (d3.out.n != 0) c_fail(&r, "reused_dctx_wrong_content");
-                    else { decres_t d4 = decode_frame(dctx, buf + 8 + ssz, fsz, (int[]){0, 1, 2}[rndn(3)], 0, NULL, 0, rnd()); n_decodes++;
+                    else { decres_t d4 = decode_frame(dctx, buf + 8 + ssz, fsz, (int[]){0, 1, 2}[rndn(3)], 0, dd, dds, rnd()); n_decodes++;
                         if (d4.verdict != 0) { c_fail(&r, "reused_dctx_failed_on_valid_frame"); LZ4F_resetDecompressionContext(dctx); }
                         else if (d4.consumed != fsz) c_fail(&r, "completion_did_not_stop_at_frame_end");
                         else if (d4.out.n != n || (n && memcmp(d4.out.p, data, n) != 0)) c_fail(&r, "reused_dctx_wrong_content");
